@@ -59,3 +59,108 @@ def setup_pair(it, kinds=('native', 'native'), pair_type='cp', toggles=(True, Tr
         else: w.cw20.append((Str(NAMES['cw20'][i]), Str(PAIR), b[i]))
     w.cw20_info[LP] = dict(total_supply=S, decimals=6)
     return dict(b=b, f=f, S=S, fees=(fp, fs, fb), at=at, ab=ab)
+
+
+# ---------------------------------------------------------------------------------------------------------
+# explorers: one real entry point call from an arbitrary Inv-state
+# ---------------------------------------------------------------------------------------------------------
+CP = 'terraswap_pair'
+KIND_CFGS = {'nn': ('native', 'native'), 'nc': ('native', 'cw20'), 'cn': ('cw20', 'native'), 'cc': ('cw20', 'cw20')}
+XM = PN + 'pair::ExecuteMsg'
+
+
+def aname(kinds, i): return NAMES[kinds[i]][i]
+
+
+def common_inv(c, st, attached=(0, 0)):
+    """representation invariant of a pair: pending fees are held (net of funds attached to this very call); all-time
+    counters are far from 2^128 (they are bounded by the tokens that ever existed)."""
+    for i in (0, 1):
+        c.assume(st['f'][i] + attached[i] <= st['b'][i])
+        c.assume(st['at'][i] < 2**127); c.assume(st['ab'][i] < 2**127)
+    fp, fs, fb = st['fees']
+    c.assume(fp < E18); c.assume(fs < E18); c.assume(fb < E18); c.assume(fp + fs + fb < E18)
+
+
+def swap_body(kinds, oi, belief=False, to=True, toggles=(True, True, True), pair_type='cp', amp=None, sender_sym=False):
+    def body(it):
+        c = it.ctx
+        st = setup_pair(it, kinds, pair_type, toggles, amp=amp)
+        off = c.sym('offer', 128)
+        common_inv(c, st, attached=(off, 0) if oi == 0 else (0, off))
+        ms = SOME(DEC(c.sym('max_spread', 128)))
+        bp = SOME(DEC(c.sym('belief_price', 128))) if belief else NONE()
+        to_v = SOME(Str('recv')) if to else NONE()
+        env = mk_env(it, 10**18)
+        if kinds[oi] == 'native':
+            msg = it.mkv(XM, 'Swap', offer_asset=asset(it, kinds[oi], oi, off), belief_price=bp, max_spread=ms, to=to_v)
+            inf = mk_info('trader', [COIN(aname(kinds, oi), off)])
+        else:
+            hook = it.mkv(PN + 'pair::Cw20HookMsg', 'Swap', belief_price=bp, max_spread=ms, to=to_v)
+            msg = it.mkv(XM, 'Receive', it.mk('cw20::Cw20ReceiveMsg', sender=Str('trader'), amount=U128(off), msg=BIN(hook)))
+            inf = mk_info(aname(kinds, oi), [])
+        it.extra = dict(st=st, offer=off, oi=oi, kinds=kinds, receiver='recv' if to else 'trader')
+        return enter(it, CP, 'execute', env, inf, msg)
+    return body
+
+
+def provide_body(kinds, first=False, receiver=True, toggles=(True, True, True), slippage=False, pair_type='cp', amp=None, swap_order=True):
+    def body(it):
+        c = it.ctx
+        st = setup_pair(it, kinds, pair_type, toggles, amp=amp)
+        d = [c.sym('d0', 128), c.sym('d1', 128)]
+        att = [d[i] if kinds[i] == 'native' else 0 for i in (0, 1)]
+        common_inv(c, st, attached=att)
+        if first: c.assume(st['S'] == 0)
+        else: c.assume(st['S'] >= 1)
+        assets = [asset(it, kinds[0], 0, d[0]), asset(it, kinds[1], 1, d[1])]
+        if swap_order: assets.reverse()          # the caller may list the assets in either order
+        sl = SOME(DEC(c.sym('slippage', 128))) if slippage else NONE()
+        msg = it.mkv(XM, 'ProvideLiquidity', assets=Agg('array', assets), slippage_tolerance=sl,
+                     receiver=SOME(Str('recv')) if receiver else NONE())
+        funds = [COIN(aname(kinds, i), d[i]) for i in (0, 1) if kinds[i] == 'native']
+        it.extra = dict(st=st, d=d, kinds=kinds, receiver='recv' if receiver else 'provider')
+        return enter(it, CP, 'execute', mk_env(it, 10**18), mk_info('provider', funds), msg)
+    return body
+
+
+def withdraw_body(kinds, toggles=(True, True, True), pair_type='cp', amp=None, sender=LP):
+    def body(it):
+        c = it.ctx
+        st = setup_pair(it, kinds, pair_type, toggles, amp=amp)
+        amt = c.sym('amount', 128)
+        common_inv(c, st)
+        c.assume(amt <= st['S'])       # the cw20 Send that triggers this hook moved `amount` existing LP tokens
+        hook = it.mkv(PN + 'pair::Cw20HookMsg', 'WithdrawLiquidity')
+        msg = it.mkv(XM, 'Receive', it.mk('cw20::Cw20ReceiveMsg', sender=Str('holder'), amount=U128(amt), msg=BIN(hook)))
+        it.extra = dict(st=st, amount=amt, kinds=kinds)
+        return enter(it, CP, 'execute', mk_env(it, 10**18), mk_info(sender, []), msg)
+    return body
+
+
+def collect_body(kinds, sender='anyone'):
+    def body(it):
+        c = it.ctx
+        st = setup_pair(it, kinds)
+        common_inv(c, st)
+        it.extra = dict(st=st, kinds=kinds)
+        return enter(it, CP, 'execute', mk_env(it, 10**18), mk_info(sender, []), it.mkv(XM, 'CollectProtocolFees'))
+    return body
+
+
+def update_fees_body(kinds):
+    def body(it):
+        c = it.ctx
+        st = setup_pair(it, kinds)
+        common_inv(c, st)
+        nf = [c.sym('new_fee_protocol', 128), c.sym('new_fee_swap', 128), c.sym('new_fee_burn', 128)]
+        pf = it.mk(PN + 'pair::PoolFee', protocol_fee=fee(it, nf[0]), swap_fee=fee(it, nf[1]), burn_fee=fee(it, nf[2]))
+        msg = it.mkv(XM, 'UpdateConfig', owner=NONE(), fee_collector_addr=NONE(), pool_fees=SOME(pf), feature_toggle=NONE())
+        it.extra = dict(st=st, kinds=kinds, new_fees=nf)
+        return enter(it, CP, 'execute', mk_env(it, 10**18), mk_info('owner', []), msg)
+    return body
+
+
+def ledger_after(p, name):
+    """amounts of a Vec<Asset> fee ledger in the post-state"""
+    return [a.fields[1].fields[0] for a in p.world.storage[name].items]
